@@ -65,6 +65,9 @@ def gen_policy(rng, o):
     p["sleeper_p"] = rng.random() < 0.4
     # attempt_timeout_s: 160 ticks (2.5 s) is longer than every scripted duration, so it fires only for operations scripted to hang
     p["att_timeout"] = 160 if rng.random() < o.get("p_att_timeout", 0.15) else None
+    if p["att_timeout"] is not None and rng.random() < 0.2:
+        # "no limit in practice": 1e10 s, more than the platform can wait for in one go (threading.TIMEOUT_MAX); never fires
+        p["att_timeout"] = 64 * 10**10
     return p
 
 
@@ -111,7 +114,7 @@ def gen_env(rng, p, c, o):
                 r = rng.random()
                 if r < 0.35:
                     op.append("te")
-                elif r < 0.35 + (0.25 if o.get("_is_async") else 0.03):
+                elif p["att_timeout"] < 10**6 and r < 0.35 + (0.25 if o.get("_is_async") else 0.03):
                     op[1] = p["att_timeout"]
                     op.append("hang")
     svals = [0, 0, 1, 1, 2, 3, 5, 8, dl, dl + 3, 2**20, -1, -5, "nan", "inf", "-inf", "huge", "-huge"]
@@ -236,7 +239,7 @@ def hold_hung_sequences(rng, o, modes=("call", "execute")):
     out = []
     for mode in modes:
         p = gen_policy(rng, dict(o, p_att_timeout=1.0, p_tight_deadline=0.0, p_handler=0.0))
-        p.update(max_attempts=3, max_unknown=None, per_class={}, strat_default=False, strat_tab={}, handler_p=False)
+        p.update(max_attempts=3, max_unknown=None, per_class={}, strat_default=False, strat_tab={}, handler_p=False, att_timeout=160)
         call = gen_call(rng, 0, p, dict(o, p_abort=0.0, p_handler=0.0, p_async=0.0, mode=mode), entries=["retry"])
         ok_second = rng.random() < 0.5
         call["env"]["ops"] = [["R", p["att_timeout"], "TRANSIENT", None, "hang"],
